@@ -6,6 +6,8 @@ Functions for converting between different atmospheric parameters,
 
 """
 
+import operator
+
 import numpy
 
 
@@ -105,6 +107,11 @@ def _along_axis(profile, other, axis):
     profiles) lies along the integration axis of the table it is combined with,
     not along the last axis, which is where plain broadcasting would put it.
     """
+    try:
+        axis = operator.index(axis)
+    except TypeError:
+        # axis=None or a tuple of axes: plain broadcasting, as before
+        return profile
     if numpy.ndim(profile) == 1 and numpy.ndim(other) > 1:
         shape = [1] * numpy.ndim(other)
         shape[axis] = -1
